@@ -37,7 +37,7 @@ def _rot(seq, v):
 
 
 @st.composite
-def _datasets(draw, tier, mode="any", exact=False, variant=0, force_runout=False):
+def _datasets(draw, tier, mode="any", exact=False, variant=0, force_runout=False, wide=False):
     """A fatigue test series as rows [load, cycles, fracture] around a Basquin line (k, ND, SD).
 
     mode: 'any'    the two highest levels hold fractures only (>= 2 finite-zone fracture levels), the rest is free
@@ -46,6 +46,8 @@ def _datasets(draw, tier, mode="any", exact=False, variant=0, force_runout=False
           'mixed1' exactly one mixed level (MaxLikeFull then fixes TS), small
     exact: cycles lie exactly on the line (no scatter, no rounding to integers).
     variant rotates the value lists, so that Hypothesis' simplest example differs between the ML lanes.
+    wide: also loads that are small or large numbers (strain amplitudes 0.0032, stresses in GPa / in Pa) and steep slopes
+          up to k = 40 (see the note on the admitted range at WIDE_SCALES).
     """
     ml = mode in ("mixed2", "mixed1")
     dyadic = exact and draw(st.booleans())
@@ -53,9 +55,14 @@ def _datasets(draw, tier, mode="any", exact=False, variant=0, force_runout=False
         SD, ND = 64.0, 2.0 ** 24
         k = float(draw(st.sampled_from([2, 3, 4])))
     else:
-        SD = draw(st.sampled_from(_rot([100.0, 250.0, 362.5, 37.3, 1.25, 820.0], variant)))
-        k = draw(st.one_of(st.sampled_from(_rot([3.0, 5.0, 8.0, 2.0, 15.0], variant)),
-                           st.floats(2.0, 15.0).map(lambda v: _round_sig(v, 4))))
+        sds, ks, kmax = [100.0, 250.0, 362.5, 37.3, 1.25, 820.0], [3.0, 5.0, 8.0, 2.0, 15.0], 15.0
+        if wide:
+            sds = sds + [0.0032, 0.25, 3.6e8, 4.2e-5]
+            ks = ks + [38.0, 25.0]
+            kmax = 40.0
+        SD = draw(st.sampled_from(_rot(sds, variant)))
+        k = draw(st.one_of(st.sampled_from(_rot(ks, variant)),
+                           st.floats(2.0, kmax).map(lambda v: _round_sig(v, 4))))
         ND = draw(st.sampled_from(_rot([1.0e6, 2.0e5, 2.0e6, 5.0e6], variant)))
     sigma = 0.0 if exact else draw(st.sampled_from(_rot([0.1, 0.05, 0.02, 0.2, 0.3], variant)))
     sS = math.log10(draw(st.sampled_from(_rot([1.15, 1.05, 1.3, 1.6], variant)))) / 2.5631031311
@@ -84,7 +91,9 @@ def _datasets(draw, tier, mode="any", exact=False, variant=0, force_runout=False
     if dyadic:
         loads = [SD * 2.0 ** (n - 1 - i - min(n_inf, 2)) for i in range(n)]
     else:
-        steps = [draw(st.sampled_from([0.05, 0.03, 0.08, 0.12, 0.2, 0.3])) for _ in range(n - 1)]
+        # steep curves are tested on narrow load ranges (otherwise the upper levels would break within a few cycles)
+        step_pool = [0.05, 0.03, 0.08, 0.12, 0.2, 0.3] if k <= 15.0 else [0.05, 0.03, 0.04]
+        steps = [draw(st.sampled_from(step_pool)) for _ in range(n - 1)]
         lo = SD * (0.96 ** n_inf) * draw(st.sampled_from([1.0, 0.9, 1.05]))
         loads = [lo]
         for s_ in steps:
@@ -150,6 +159,17 @@ def _datasets(draw, tier, mode="any", exact=False, variant=0, force_runout=False
 _pow2 = st.integers(-7, 10).filter(lambda e: e != 0).map(lambda e: 2.0 ** e)
 _fscale = st.floats(1e-2, 1e3).map(lambda v: _round_sig(v, 6)).filter(lambda v: v != 1.0)
 _scales = st.one_of(_pow2, _fscale)
+
+# 'Every positive scale factor' is taken as every change between units in which fatigue data are actually written down:
+# loads from strain amplitudes as absolute numbers (1e-5 .. 1e-2) over GPa, MPa, N to stresses in Pa (up to ~1e10), cycles from
+# mega-cycles / blocks to single cycles.  That is a factor of 1e-6 .. 1e6 on a series whose loads are themselves between 4e-5
+# and 4e8 (wide data sets), i.e. load magnitudes 1e-11 .. 1e15, combined with slopes up to k = 40.  k * |lg load| then reaches
+# ~600, beyond the range (308) where powers of absolute loads leave double precision - a code path that takes such powers is
+# wrong for Pa-data of flat curves and must show up.  Factors like 1e36 are outside: no unit system produces them.
+_wpow2 = st.integers(-20, 20).filter(lambda e: e != 0).map(lambda e: 2.0 ** e)
+_wfscale = st.floats(-6.0, 6.0).map(lambda e: _round_sig(10.0 ** e, 6)).filter(lambda v: v != 1.0)
+_decades = st.sampled_from([1e-6, 1e-3, 1e-2, 1e3, 1e6])          # MPa -> TPa / GPa / 'percent -> absolute' / kPa / Pa
+WIDE_SCALES = st.one_of(_wpow2, _wfscale, _decades)
 
 
 def frame(rows, index=None, rid=None):
@@ -250,7 +270,7 @@ def ref_ll_finite(rows, p, absum=None):
     ll = 0.0
     for load, cyc, fr in rows:
         if fr:
-            x = math.log10(cyc) + k * (math.log10(load) - math.log10(SD))
+            x = math.log10(cyc) + k * math.log10(load / SD)
             t = float(sps.norm.logpdf(x, math.log10(ND), sN))
             ll += t
             if absum is not None:
@@ -270,7 +290,7 @@ def ref_ll_infinite(rows, p, absum=None):
     ll = 0.0
     for i in structure(rows)["infinite"]:
         load, cyc, fr = rows[i]
-        z = (math.log10(load) - math.log10(SD)) / sS
+        z = math.log10(load / SD) / sS
         t = float(sps.norm.logcdf(z if fr else -z))     # 1 - cdf(z) = cdf(-z), without cancellation
         ll += t
         if absum is not None:
@@ -511,7 +531,7 @@ def _compare_closed(name, rows, kind, c, perm, ctx, index=None, index2=None):
 @st.composite
 def _closed_cases(draw, tier, kind):
     mode = draw(st.sampled_from(["any"] * 5 + ["wild"]))
-    ds = draw(_datasets(tier, mode=mode))
+    ds = draw(_datasets(tier, mode=mode, wide=True))
     n = len(ds["rows"])
     case = {"rows": ds["rows"], "mode": mode}
     if kind == "perm":
@@ -519,7 +539,7 @@ def _closed_cases(draw, tier, kind):
         case["layout"] = draw(st.sampled_from(LAYOUTS))
         case["split"] = draw(st.integers(1, max(1, n - 1)))
     else:
-        case["c"] = draw(_scales)
+        case["c"] = draw(WIDE_SCALES)
     return case
 
 
@@ -563,7 +583,7 @@ subcheck(PROP, "closed_permutation", strategy=lambda tier: _closed_cases(tier, "
 # ---- exact synthetic data ---------------------------------------------------------------------------------
 @st.composite
 def _exact_cases(draw, tier):
-    ds = draw(_datasets(tier, mode="any", exact=True))
+    ds = draw(_datasets(tier, mode="any", exact=True, wide=True))
     return {"rows": ds["rows"], "truth": ds["truth"]}
 
 
@@ -613,9 +633,9 @@ def exact_recovery(case, ctx):
 @st.composite
 def _zone_cases(draw, tier):
     mode = draw(st.sampled_from(["any", "wild", "wild"]))
-    ds = draw(_datasets(tier, mode=mode))
+    ds = draw(_datasets(tier, mode=mode, wide=True))
     n = len(ds["rows"])
-    return {"rows": ds["rows"], "c": draw(_scales), "perm": draw(st.permutations(list(range(n)))),
+    return {"rows": ds["rows"], "c": draw(WIDE_SCALES), "perm": draw(st.permutations(list(range(n)))),
             "layout": draw(st.sampled_from(LAYOUTS)), "split": draw(st.integers(1, max(1, n - 1)))}
 
 
@@ -701,11 +721,11 @@ def zones(case, ctx):
 # ---- likelihood function vs. the reference ------------------------------------------------------------------
 @st.composite
 def _ll_cases(draw, tier):
-    ds = draw(_datasets(tier, mode=draw(st.sampled_from(["any", "mixed2"]))))
+    ds = draw(_datasets(tier, mode=draw(st.sampled_from(["any", "mixed2"])), wide=True))
     t = ds["truth"]
     p = {"SD": t["SD"] * draw(st.floats(0.7, 1.4)), "k_1": t["k"] * draw(st.floats(0.5, 2.0)), "ND": t["ND"] * draw(st.floats(0.2, 5.0)),
          "TN": draw(st.floats(1.05, 20.0)), "TS": draw(st.floats(1.02, 3.0))}
-    return {"rows": ds["rows"], "params": p, "c": draw(_scales)}
+    return {"rows": ds["rows"], "params": p, "c": draw(WIDE_SCALES)}
 
 
 @subcheck(PROP, "likelihood_reference", strategy=_ll_cases, quick=300, thorough=12000,
